@@ -15,6 +15,10 @@ func Decrypt(key string, byts []byte) ([]byte, error) {
 		return nil, err
 	}
 
+	if len(enc) < 24 {
+		return nil, fmt.Errorf("decryption error")
+	}
+
 	var secretKey [32]byte
 	copy(secretKey[:], key)
 
